@@ -729,7 +729,9 @@ func genMotif(r *rand.Rand, m int, in *kvInput, exists map[string]bool, hot []st
 		kv(&KOp{Kind: "Set", Val: sp(pick(r, jsonBodies))})
 		view(h, "v0", &ViewParams{})
 		x := []XKV{{Name: "_sync", Val: sp(pick(r, xattrVals))}}
-		kv(&KOp{Kind: "SetWithMeta", CasMode: pick(r, []string{"current", "zero"}), NewCas: pick(r, []uint64{5000, 1 << 30, 1<<61 + 9}) + uint64(r.Intn(50)), Val: sp(pick(r, jsonBodies)), IsJSON: true, XObj: &x})
+		kv(&KOp{Kind: "SetWithMeta", CasMode: pick(r, []string{"current", "zero"}), NewCas: pick(r, []uint64{5000, 1 << 30, 1<<61 + 9, 1<<61 + 9}) + uint64(r.Intn(50)), Val: sp(pick(r, jsonBodies)), IsJSON: true, XObj: &x})
+		// a feed from exactly that version on: the CAS a WithMeta write stores is the caller's, whatever the clock says
+		in.Ops = append(in.Ops, Step{Kind: "dump", Coll: cn, Key: key, Start: pick(r, []string{"current", "current", "stale"}), KeysOnly: r.Intn(4) == 0, ViaBucket: r.Intn(3) == 0, Clock: next()})
 		view(h, pick(r, []string{"v0", "v1"}), &ViewParams{})
 		// a WithMeta write of ANOTHER key (possibly a new document) with a CAS far below what is indexed
 		key2 := pick(r, kvKeys)
@@ -865,9 +867,25 @@ func genMotif(r *rand.Rand, m int, in *kvInput, exists map[string]bool, hot []st
 	case motifSubdocShapes:
 		// sub-document calls against documents whose shape matters: a null property, a scalar where an object is
 		// expected, nested objects, arrays; paths that end in, start with or contain an empty component
-		kv(&KOp{Kind: "Set", Val: sp(pick(r, []string{`{"n":null,"s":"x"}`, `{"a":{"z":[1]},"b":true}`, `{"b":{"c":{"d":5}},"q":"w"}`, `{"a":1,"b":{"c":2}}`, `{"a":{"":7},"":{"a":1}}`}))})
-		for j := 0; j < 3+r.Intn(3); j++ {
+		shapes := []struct {
+			body  string
+			paths []string // the paths along which this shape is interesting
+		}{
+			{`{"n":null,"s":"x"}`, []string{"n.x", "n", "s.y", "n.x.y"}},
+			{`{"a":{"z":[1]},"b":true}`, []string{"a.z", "a.z.w", "b.c", "a"}},
+			{`{"b":{"c":{"d":5}},"q":"w"}`, []string{"b.c", "b.c.d", "b.c.d.e", "q"}},
+			{`{"a":1,"b":{"c":2}}`, []string{"a.z", "b.c", "b.c.d", "new.deep"}},
+			{`{"a":{"":7},"":{"a":1}}`, []string{"a.", ".a", "b..c", "a"}},
+			{`{"a":{"b":null},"n":null}`, []string{"a.b.c", "a.b", "n.x", "n"}},
+		}
+		sh := shapes[r.Intn(len(shapes))]
+		kv(&KOp{Kind: "Set", Val: sp(sh.body)})
+		own := r.Perm(len(sh.paths))
+		for j := 0; j < 4+r.Intn(3); j++ {
 			path := pick(r, []string{"n.x", "n", "s.y", "a.z", "a.z.w", "b.c", "b.c.d", "b.c.d.e", "a.", ".a", "b..c", "q", "new.deep", "a"})
+			if j < len(own) {
+				path = sh.paths[own[j]]
+			}
 			switch r.Intn(4) {
 			case 0:
 				kv(&KOp{Kind: "GetSubDocRaw", Path: path})
